@@ -3,6 +3,7 @@ In-process, instrumented runs of the real implementation.  Nothing here changes 
 calls are observed by wrapping module attributes inside this process.
 """
 import contextlib
+import copy
 import re
 
 import networkx as nx
@@ -96,8 +97,9 @@ def run_steps(resolver):
                 rec['message'] = str(err)[:200]
         rec['arom_calls'] = arom.calls
         if rec['result'] == 'ok':
-            rec['fine_graph'] = fine
-            rec['meta_graph'] = meta
+            # snapshots: the next level mutates these very objects (fragname := atomname, 'graph')
+            rec['fine_graph'] = copy.deepcopy(fine)
+            rec['meta_graph'] = copy.deepcopy(meta)
             try:
                 rec['fine'] = dump_mol(fine)
                 rec['coarse'] = [[k, list(meta.nodes[k]['graph'].nodes) if 'graph' in meta.nodes[k] else None]
